@@ -39,7 +39,17 @@ def odd_plants(rng, hist_dirs=("a.task.100", "pk/b.task.101")):
 def scenario(rng, k):
     git = k % 2 == 1
     proj = G.base_project(rng, git=git)
-    steps = [G.run_step(rng, 100, again=False, p_fail=0.15)]
+    steps = []
+    foreign = (not git) and rng.random() < 0.5
+    if foreign:
+        # versions made in another clone one second earlier, brought in by restore: a stale version of one task then
+        # carries the same id as the newest version of another task, which never happens within one project
+        steps += [{"cmd": "copyproject", "name": "donor"},
+                  dict(G.run_step(rng, 100, target="//:all", again=False, p_fail=0.0), project="donor"),
+                  {"cmd": "archive", "argv": ["archive", "-o", "../D.tar.gz"], "out": "../D.tar.gz", "sel": {}, "project": "donor"}]
+    steps.append(G.run_step(rng, 101 if foreign else 100, target="//:all", again=False, p_fail=0.0 if foreign else 0.15))
+    if foreign:
+        steps.append({"cmd": "restore", "argv": ["restore", "../D.tar.gz"], "archive": "../D.tar.gz"})
     if git and rng.random() < 0.7:
         steps.append({"cmd": "git", "ops": [["checkout", 0]] + ([["dirty"]] if rng.random() < 0.5 else [])})
     for _ in range(rng.randrange(0, 3)):
@@ -48,6 +58,8 @@ def scenario(rng, k):
     steps.append({"cmd": "plant", "entries": odd_plants(rng)})
     task = rng.choice(TARGETS)
     latest = rng.random() < 0.5
+    if foreign and rng.random() < 0.6:
+        task, latest = None, True
     argv = ["archive"] + ([task] if task else []) + (["--latest"] if latest else []) + ["-o", "../A.tar.gz"]
     sel = {"task": task, "latest": latest}
     steps.append({"cmd": "archive", "argv": argv, "out": "../A.tar.gz", "sel": sel})
